@@ -279,3 +279,73 @@ Example ex_setters :
   sl_lam (fst (fold_left sl_apply [SlStep (0%nat, 0%nat, 1%nat, 1%nat, 1); SlDiscount (1#2); SlLambda 0; SlTol (1#8)]
                           (sl_ctor (1#2) (3#4) 1 (1#64), (qzero 2 2, [])))) == 0.
 Proof. split; [repeat constructor; cbn; lra| vm_compute; reflexivity]. Qed.
+
+(* ================================================================ round 6: DoubleQLearning *)
+From AIT Require Import C11.SpecDQ C11.ProofsDQ.
+
+(* ---- DoubleQLearning applies its DOCUMENTED rule on the documented tables A = qa_, B = qc_ - qa_
+        (any tables, any sample, either coin): the coin's table moves towards r + gamma * OTHER(s1, argmax own(s1,.)),
+        only at (s,a); the other table is not touched *)
+Theorem doubleq_documented_rule : forall nS nA alpha g qa qc coin s a s1 r,
+  (0 < nA)%nat -> shape nS nA qa -> shape nS nA qc -> (s < nS)%nat -> (a < nA)%nat -> (s1 < nS)%nat ->
+  dq_documented nA alpha g (qa, qc) (dq_step alpha g (qa, qc) (coin, s, a, s1, r)) coin s a s1 r.
+Proof. exact dq_documented_lemma. Qed.
+Print Assumptions doubleq_documented_rule.
+
+(* ---- full-strength fixed point of DoubleQLearning: ANY well-formed (stochastic) MDP, qa = qb = Qstar
+        (qc = 2 Qstar): for either coin the average over s1 ~ T(s,a,.) of the updated entries (sample
+        reward = the model's R(s,a)) is the old entry, for both stored tables *)
+Theorem doubleq_optimal_expected_fixpoint : forall m alpha qa qc coin s a,
+  wf_mdp m -> is_qstar m qa -> shape (nS m) (nA m) qa -> shape (nS m) (nA m) qc ->
+  (forall x y, qget qc x y == qget qa x y + qget qa x y) ->
+  (s < nS m)%nat -> (a < nA m)%nat ->
+  let nxt := fun s1 => dq_step alpha (gam m) (qa, qc) (coin, s, a, s1, nthq (row (R m) s) a) in
+  dq_expected m s a (fun s1 => qget (fst (nxt s1)) s a) == qget qa s a /\
+  dq_expected m s a (fun s1 => qget (snd (nxt s1)) s a) == qget qc s a.
+Proof. exact doubleq_optimal_expected_fixpoint_lemma. Qed.
+Print Assumptions doubleq_optimal_expected_fixpoint.
+
+(* a stochastic 2-state MDP (0 -> 0 or 1 evenly, 1 -> 1; rewards 1, 2; gamma 1/2), its Qstar = [[8/3],[4]] and
+   the stored pair (Qstar, 2 Qstar) *)
+Definition ex_sto : mdp := {| nS := 2; nA := 1; P := [[[1#2; 1#2]; [0; 1]]]; R := [[1]; [2]]; gam := 1#2 |}.
+Example ex_dq_star : wf_mdp ex_sto /\ is_qstar ex_sto [[8#3]; [4]] /\
+  shape 2 1 [[8#3]; [4]] /\ shape 2 1 [[16#3]; [8]] /\
+  (forall x y, qget [[16#3]; [8]] x y == qget [[8#3]; [4]] x y + qget [[8#3]; [4]] x y).
+Proof.
+  split; [| split; [| split; [| split]]].
+  - unfold wf_mdp, ex_sto; cbn [nS nA P R gam].
+    split; [lia|]. split; [lia|]. split; [lra|]. split; [lra|]. split; [reflexivity|]. split; [reflexivity|].
+    split; [| split].
+    + intros a Ha. assert (a = 0)%nat by lia. subst. reflexivity.
+    + intros a s Ha Hs. assert (a = 0)%nat by lia. subst.
+      destruct s as [|[|s]]; try lia; (split; [reflexivity| split; [repeat constructor; lra| cbn; lra]]).
+    + intros s Hs. destruct s as [|[|s]]; try lia; reflexivity.
+  - intros s a Hs Ha. cbn in Hs, Ha. assert (a = 0)%nat by lia. subst.
+    destruct s as [|[|s]]; try lia; vm_compute; reflexivity.
+  - split; [reflexivity| repeat constructor].
+  - split; [reflexivity| repeat constructor].
+  - intros x y. unfold qget, row, nthq.
+    destruct x as [|[|[|x]]]; cbn [nth]; destruct y as [|[|y]]; cbn [nth]; lra.
+Qed.
+
+(* ---- the driver's checker of the documented rule (run on consecutive dumps of the real learner) is sound
+        on the cells of the table *)
+Theorem doubleq_documented_checker_sound : forall nS nA alpha g st st' coin s a s1 r,
+  dq_documentedb nS nA alpha g st st' coin s a s1 r = true ->
+  exists a1,
+    row_argmax nA ((if coin then dq_a else dq_b) st s1) a1 /\
+    (if coin then dq_a else dq_b) st' s a ==
+      (if coin then dq_a else dq_b) st s a +
+      alpha * (r + g * (if coin then dq_b else dq_a) st s1 a1 - (if coin then dq_a else dq_b) st s a) /\
+    (forall x y, (x < nS)%nat -> (y < nA)%nat -> (x, y) <> (s, a) ->
+       (if coin then dq_a else dq_b) st' x y == (if coin then dq_a else dq_b) st x y) /\
+    (forall x y, (x < nS)%nat -> (y < nA)%nat ->
+       (if coin then dq_b else dq_a) st' x y == (if coin then dq_b else dq_a) st x y).
+Proof. exact dq_documentedb_sound. Qed.
+Print Assumptions doubleq_documented_checker_sound.
+
+(* the checker accepts a model step from a state with A <> B (tails: B moves towards r + gamma A(s1, argmax B)) *)
+Example ex_dq_checker :
+  dq_documentedb 2 2 (1#2) (1#2) ([[1; 0]; [0; 2]], [[1; 3]; [4; 2]])
+    (dq_step (1#2) (1#2) ([[1; 0]; [0; 2]], [[1; 3]; [4; 2]]) (false, 0%nat, 1%nat, 1%nat, 1)) false 0 1 1 1 = true.
+Proof. vm_compute. reflexivity. Qed.
